@@ -380,7 +380,12 @@ impl<CharIter: Iterator<Item = char>> Lexer<CharIter> {
                 self.advance(1);
             }
         }
-        self.digital10(number_literal)
+        self.digital10(number_literal)?;
+        // the exponent ends the number: a delimiter (or the end of the input) has to follow
+        match self.peekable_char_stream.peek() {
+            Some(nc) => Self::test_delimiter(Some(self.location), *nc),
+            None => Ok(()),
+        }
     }
 
     fn real(&mut self, number_literal: &mut String) -> Result<()> {
@@ -443,6 +448,10 @@ impl<CharIter: Iterator<Item = char>> Lexer<CharIter> {
                                 let mut denominator = String::new();
                                 self.advance(1);
                                 self.digital10(&mut denominator)?;
+                                // the denominator ends the number: a delimiter has to follow
+                                if let Some(nc) = self.peekable_char_stream.peek() {
+                                    Self::test_delimiter(Some(self.location), *nc)?;
+                                }
                                 break Ok(Some(TokenData::Primitive(Primitive::Rational(
                                     self.parse_integer::<i32>(&number_literal)?,
                                     match self.parse_integer::<u32>(&denominator)? {
